@@ -6,6 +6,8 @@
 //
 //   thr_driver run <histories.ndjson> <nthreads> <rounds> <out-prefix>
 //       thread t executes histories t, t+N, ... (rounds times) -> <out-prefix>.<t>.ndjson
+//   thr_driver seq <histories.ndjson> <nthreads> <rounds> <out-prefix>
+//       the same work executed sequentially: the program of thread 0, then that of thread 1, ... on one thread
 #include "exp_run.h"
 #include <thread>
 #include <atomic>
@@ -71,6 +73,15 @@ int main(int argc, char** argv)
             ths.emplace_back(read_worker, t, rounds, &paths, std::string(argv[5]) + "." + std::to_string(t) + ".ndjson");
         g_go.store(1);
         for (auto& th : ths) th.join();
+        return 0;
+    }
+    if (argc == 6 && std::string(argv[1]) == "seq") {
+        int nthreads = atoi(argv[3]), rounds = atoi(argv[4]);
+        std::vector<std::string> lines;
+        { std::ifstream in(argv[2]); std::string l; while (std::getline(in, l)) if (!l.empty()) lines.push_back(l); }
+        g_go.store(1);
+        for (int t = 0; t < nthreads; t++)
+            worker(t, nthreads, rounds, &lines, std::string(argv[5]) + "." + std::to_string(t) + ".ndjson");
         return 0;
     }
     if (argc != 6 || std::string(argv[1]) != "run") { fprintf(stderr, "usage: thr_driver run <histories> <nthreads> <rounds> <out-prefix>\n"); return 2; }
